@@ -173,3 +173,37 @@ def poles_below_threshold(ctx):
         ctx.check("pole_free/L=%d" % L, n == 0,
                   clause="the denominator |theta_L(i sqrt z)|^2 of Bprime_q2 has no real zero for z = q^2 d^2 < 0, so the q^2-based barrier factor is finite below threshold (L=%d)" % L,
                   detail="%d real zero(s) at negative z" % n, witness=wit)
+
+
+@group(["C15"], "formula.Bprime_polynomial/exact_and_pure", ["formula:Bprime_polynomial", "breit_wigner:get_bprime_coeff", "breit_wigner:Bprime_polynomial"],
+       env="shim", kind="G", cost=1,
+       bound="L = 0..8 (thorough 0..12): the sympy-side polynomial on the 1st, 2nd and 3rd call in one process, and the numeric-side coefficient table before / after those calls",
+       assumes=["exact comparison of sympy polynomials over QQ"])
+def formula_bprime_pure(ctx):
+    import sympy
+
+    formula = ctx.mod("formula")
+    bw = ctx.mod("breit_wigner")
+    z = sympy.Symbol("z")
+    lmax = 12 if ctx.tier == "thorough" else 8
+    bad_val = bad_state = None
+    for L in range(lmax + 1):
+        cs = theta2_coeffs(L)  # c_0 .. c_L, monic normalisation
+        want = sympy.Poly(sum(sympy.Rational(c.numerator, c.denominator) * z ** i for i, c in enumerate(cs)), z)
+        before = [int(c) for c in bw.get_bprime_coeff(L)]
+        for call in (1, 2, 3):
+            got = sympy.Poly(sympy.expand(formula.Bprime_polynomial(L, z)), z)
+            ctx.count(key=(L, call), sample={"L": L, "call": call})
+            # coefficients compared as exact rationals (the literal table spells 225 as 225.0: the same number)
+            same = [sympy.Rational(c) for c in got.all_coeffs()] == [sympy.Rational(c) for c in want.all_coeffs()]
+            if not same and bad_val is None:
+                bad_val = {"L": L, "call_number_in_this_process": call, "got": str(got.as_expr()), "want": str(want.as_expr())}
+            after = [int(c) for c in bw.get_bprime_coeff(L)]
+            if after != before and bad_state is None:
+                bad_state = {"L": L, "after_call_number": call, "get_bprime_coeff_before": before, "get_bprime_coeff_after": after}
+    ctx.check("sympy_polynomial_exact_on_every_call", bad_val is None,
+              clause="formula.Bprime_polynomial(L, z) == |theta_L(i sqrt z)|^2 (monic, exact over QQ) on the first, second and third call in one process",
+              detail=str(bad_val), witness=bad_val)
+    ctx.check("numeric_table_unchanged_by_symbolic_calls", bad_state is None,
+              clause="breit_wigner.get_bprime_coeff(L) returns the same coefficients after formula.Bprime_polynomial(L, .) was called (the cached table is not mutated)",
+              detail=str(bad_state), witness=bad_state)
